@@ -36,9 +36,11 @@ def gen_case(rng, dims=None):
         c["points"] = [pc.hx("p%d" % j) for j in range(len(c["points"]))]
         c["limbs"] = [[a % len(c["points"]), b % len(c["points"])] for a, b in c["limbs"]]
     h = {"version": pc.V02, "width": 50, "height": 60, "depth": 0, "components": comps}
-    F, P, N = rng.randint(1, 6), rng.randint(1, 2), pc.total_points(h)
+    F, P, N = rng.randint(1, 8), rng.randint(1, 2), pc.total_points(h)
     data = np.array([rng.randint(-40, 40) / 4 for _ in range(F * P * N * dims)], dtype=np.float32)
-    conf = np.array([0.0 if rng.random() < 0.35 else rng.choice([1.0, 0.5, 0.25]) for _ in range(F * P * N)], dtype=np.float32).reshape(F, P, N)
+    # confidences: mostly in (0, 1]; some tiny ones next to large ones (a cubic resampling then undershoots below 0), a few negative ones (the v0.0 reader
+    # and test fixtures produce them): "missing" is confidence == 0, nothing else
+    conf = np.array([0.0 if rng.random() < 0.35 else rng.choice([1.0, 0.5, 0.25, 0.9, 0.05, 0.05, -0.5]) for _ in range(F * P * N)], dtype=np.float32).reshape(F, P, N)
     r = rng.random()
     if r < 0.2 and len(comps) > 1:                       # a whole component missing
         off = 0; k = rng.randrange(len(comps))
@@ -362,17 +364,37 @@ def run(ctx):
             if 0 in ishape:
                 continue
             num = lambda toks: np.array([np.nan if x == "nan" else np.uint64(x).view(np.float64) for x in toks], dtype=np.float64)
-            same = iv["missing"] == mv[2] and len(iv["conf"]) == len(mv[1]) and np.allclose(num(iv["conf"]), num(mv[1]), rtol=1e-9, atol=0, equal_nan=True)
+            same = iv["missing"] == mv[2] and len(iv["conf"]) == len(mv[1]) and np.allclose(num(iv["conf"]), num(mv[1]), rtol=1e-9, atol=1e-12, equal_nan=True)
             if same:
                 a = np.array([np.nan if x == "nan" else np.uint64(x).view(np.float64) for x in iv["zf"]], dtype=np.float64)
                 b = np.array([np.nan if x == "nan" else np.uint64(x).view(np.float64) for x in mv[3]], dtype=np.float64)
                 loose = any(o["k"].startswith("normalize") for o in mops[:i])
                 same = a.shape == b.shape and np.allclose(a, b, rtol=5e-4 if loose else 1e-5, atol=5e-4 if loose else 1e-6, equal_nan=True)
+            if not same and len(iv["conf"]) == len(mv[1]) and rounding_zero_only(iv["missing"], mv[2], num(iv["conf"]), num(mv[1]), ishape):
+                ctx.count("rounding_zero_confidence_skips"); break
             if not same and any(o["k"].startswith("normalize") for o in mops[:i]):   # zero deviation / degenerate references: numpy masks, the model divides
                 ctx.count("model_precondition_skips"); break
             if not same:
                 ctx.violation("an operation's visible result differs from its model", info, {"step": i, "op": mops[i - 1]["k"] if i else "construct"}, False); break
     representations(ctx)
+
+
+def rounding_zero_only(impl_missing, model_missing, impl_conf, model_conf, shape):
+    """the two missing patterns differ only at points whose (interpolated) confidence is 0 up to rounding on one side:
+    a mixed-sign pair of confidences can interpolate to exactly 0 in one evaluation order and to ±1e-17 in the other, and
+    `confidence == 0` then decides differently. Neither is wrong; the comparison of this sequence stops there."""
+    F, P, N, D = shape
+    try:
+        a = np.array(impl_missing, dtype=bool).reshape(F, P, N, D); b = np.array(model_missing, dtype=bool).reshape(F, P, N, D)
+        ci = np.asarray(impl_conf, dtype=np.float64).reshape(F, P, N); cm = np.asarray(model_conf, dtype=np.float64).reshape(F, P, N)
+    except ValueError:
+        return False
+    diff = (a != b).any(axis=3)
+    if not diff.any():
+        return False
+    with np.errstate(all="ignore"):
+        tiny = (np.abs(ci) <= 1e-12) & (np.abs(cm) <= 1e-12)
+    return bool((tiny | ~diff).all())
 
 
 def representations(ctx):
